@@ -536,6 +536,21 @@ def rule_s4(chk: Check) -> None:
                     )
                 chk.ob("S4", f"{fi.key}: pump keeps reading after a non-empty recv()", ok4)
     chk.require("S4", ci.key, "recv loops", loops, 1, "the wrapper no longer reads decrypted data from the TLS engine")
+    # every read of decrypted data is of the form checked above (bound to a name and handed
+    # over before the next engine call): data parked in a container is delivered after
+    # whatever the loop does in between - e.g. the teardown for a close_notify or alert that
+    # arrived in the same read - so the request is answered into a closed connection or lost
+    for fi in ci.methods.values():
+        bound = {id(st.value) for st in walk(fi.node) if (isinstance(st, ast.Assign) or (isinstance(st, ast.NamedExpr) and isinstance(st.target, ast.Name))) and isinstance(st.value, ast.Call)}
+        for c in calls(fi.node):
+            mc = method_call(c)
+            if mc and mc[1] == "recv" and "tls_conn" in (dotted(mc[0]) or "") and id(c) not in bound:
+                chk.finding(
+                    "S4", fi.key, f"recv-parked:{norm(c)[:40]}",
+                    f"the result of `{norm(c)}` is not bound and handed to the inner protocol at once but collected for later: what the loop does in between (close_notify / alert / error handling for bytes of the same read) runs before the request is delivered, so the same bytes give a different outcome depending on how they were split into reads",
+                    fi.loc(c),
+                )
+                chk.ob("S4", f"{fi.key}: `{norm(c)[:40]}` handed over directly", False)
 
     # (c) data_received: handshake xor application processing
     dr = ci.methods.get("data_received")
